@@ -89,6 +89,12 @@ Fifth wave (the bulk readers behind `Downloader`, `get_equatorial_crossing_time`
                parameter the translation is specialised to prunes the dead branch; a hoisted local may be rebound to another
                type at the top level
 
+Sixth wave (`Tle.__str__`):
+  expressions  `[e for a, b in pairs if c]` (`filterMapM`); `dict(pairs)`: a NEW dict (`Py.dictOfPairs`); `io.StringIO()`: a
+               local text stream (its content so far); `stream.getvalue()`; `list(self.__dict__.items())` is a cut point
+               handing `self` (read-only) to a parameter — any other use of `self.__dict__` is refused
+  statements   `import pprint` inside a function; `pprint.pprint(d, stream)` appends the parameter `pprint_text d`
+
 Guards that keep the value semantics of the translation equal to Python's reference semantics (refusal otherwise):
   a local that may be unbound where it is read; a container that is changed in place while reachable under two names; a
   container parameter changed in place; a loop body that changes what the loop iterates over; a `try` body of more than
@@ -154,6 +160,8 @@ def lean_type(t):
         return "Response"
     if isinstance(t, tuple) and t[0] == "fetched":
         return "(Fetched %s)" % lean_type(t[1])
+    if t == "wstream":
+        return "Str"
     if t == NPV:
         return "(Np.Val F)"
     if t == "tz":
@@ -600,6 +608,11 @@ CUTS += [
          "rtol=rtol)`: scipy's bisection on the tick interval; it calls `f` (which works on the cached node of the object); "
          "ValueError when `f` has the same sign at both ends", stateful="@Orbital")),
 ]
+CUTS += [
+    ("list(_A.__dict__.items())",
+     Ext("self_dict_items", [("self", "Tle")], lst(("tuple", ("str", ("abs", "PyObj")))), [],
+         "`list(self.__dict__.items())`: the attributes of the object as (name, value) pairs, a NEW list, in `__dict__` order")),
+]
 GLOBALS["SGDP4_ZERO_ECC"] = Ext("SGDP4_ZERO_ECC", [], "int", [], "module constant `SGDP4_ZERO_ECC`")
 GLOBALS["SGDP4_NEAR_NORM"] = Ext("SGDP4_NEAR_NORM", [], "int", [], "module constant `SGDP4_NEAR_NORM`")
 GLOBALS["PLATFORM_VALUES"] = Ext("PLATFORM_VALUES", [], "str", [], "module constant `PLATFORM_VALUES` (SQL text)")
@@ -691,6 +704,7 @@ SPEC = [
     FnSpec("tlefile", "_get_first_tle", [lst("filearg"), "fnref", "str"]),
     FnSpec("tlefile", "Tle._read_tle", [], cls="Tle", cuts=["_get_uris_and_open_func", "_get_first_tle"]),
     FnSpec("tlefile", "Tle.__init__", ["str", "filearg", opt("str"), opt("str")], cls="Tle"),
+    FnSpec("tlefile", "Tle.__str__", [], cls="Tle"),
     FnSpec("tlefile", "collect_filenames", [lst("str")]),
     FnSpec("tlefile", "_parse_tles_for_downloader", [lst("filearg"), "fnref"]),
     FnSpec("tlefile", "read_tle_from_mmam_xml_file", ["str"]),
@@ -1168,6 +1182,10 @@ class FnTrans:
             if match_pattern(_parsed(pat), node, holes):
                 args = []
                 for k_, t in zip(sorted(holes), ext.args):
+                    if isinstance(holes[k_], ast.Name) and holes[k_].id == "self" and self.cls is not None \
+                            and not self.in_init and t == ("self", self.spec.cls):
+                        args.append(E("self", t))       # the object itself, handed to a (read-only) cut point
+                        continue
                     a_ = self.expr(holes[k_])
                     if a_.ty == "int" and t == F:
                         self.float_ops = True
@@ -1555,6 +1573,9 @@ class FnTrans:
         if len(n.generators) != 1:
             raise self.err(n, "comprehension with several `for`")
         g = n.generators[0]
+        if not g.is_async and isinstance(g.target, ast.Tuple) and len(g.target.elts) == 2 and \
+                all(isinstance(x, ast.Name) for x in g.target.elts):
+            return self.listcomp_pairs(n, g)
         if g.ifs or g.is_async or not isinstance(g.target, ast.Name):
             raise self.err(n, "comprehension with `if` / a target that is not a name")
         var = g.target.id
@@ -1577,6 +1598,35 @@ class FnTrans:
         if not e.mon and "←" not in e.code:
             return E("(%s.map fun %s => %s)" % (paren(it.sub()), self.ln(var), e.code), lst(ety), it.mon and False)
         return E("%s.mapM fun %s => do return %s" % (paren(it.sub()), self.ln(var), e.sub()), lst(ety), True)
+
+    def listcomp_pairs(self, n, g):
+        """`[e for a, b in pairs if c ...]`: in order; the conditions and the element are evaluated per pair"""
+        it = self.expr(g.iter)
+        if not (isinstance(it.ty, tuple) and it.ty[0] == "list" and isinstance(it.ty[1], tuple) and it.ty[1][0] == "tuple"
+                and len(it.ty[1][1]) == 2):
+            raise self.err(n, "a two-name comprehension target over a %s" % (it.ty,))
+        names = [x.id for x in g.target.elts]
+        for var in names:
+            if var in self.env or var in self.hoist or var in self.consts or var in self.scoped_out:
+                raise self.err(n, "the comprehension variable re-uses the name of another local")
+        for var, t in zip(names, it.ty[1][1]):
+            self.env[var] = t
+            self.assigned.add(var)
+        try:
+            conds = [self.truthy(self.expr(c), c) for c in g.ifs]
+            e = self.expr(n.elt)
+        finally:
+            for var in names:
+                del self.env[var]
+                self.assigned.discard(var)
+        self.tmp += 1
+        pv = "kv__%d" % self.tmp
+        cond = " && ".join(paren(c.sub()) for c in conds) if conds else "true"
+        if len(conds) > 1 and any(c.mon or "←" in c.code for c in conds[1:]):
+            raise self.err(n, "several conditions of which a later one may raise")
+        body = "let %s := %s.1; let %s := %s.2; if %s then return some %s else return none" % (
+            self.ln(names[0]), pv, self.ln(names[1]), pv, cond, paren(e.sub()))
+        return E("%s.filterMapM fun %s => do %s" % (paren(it.sub()), pv, body), lst(e.ty), True)
 
     def e_IfExp(self, n):
         """`a if c else b`: only the chosen operand is evaluated"""
@@ -1613,6 +1663,15 @@ class FnTrans:
                 self.use_ext(ext)
                 return E("%s %s" % (ext.param, paren(a.sub())), "int", True)
             return E("Py.int %s" % paren(a.sub()), "int", True)
+        if fname == "io.StringIO" and not args and not kws:
+            return E("([] : Str)", "wstream")      # a new, empty text stream held by a local: its content so far
+        if fname == "dict" and len(args) == 1 and not kws:
+            a = self.expr(args[0])
+            if isinstance(a.ty, tuple) and a.ty[0] == "list" and isinstance(a.ty[1], tuple) and a.ty[1][0] == "tuple" \
+                    and len(a.ty[1][1]) == 2 and a.ty[1][1][0] == "str":
+                # a NEW dict built from (key, value) pairs, later pairs overwriting earlier ones
+                return E("Py.dictOfPairs %s" % paren(a.sub()), ("dict", "str", a.ty[1][1][1]))
+            raise self.err(n, "dict() of a %s" % (a.ty,))
         if fname == "float" and len(args) == 1 and not kws:
             a = self.expr(args[0])
             if a.ty == F:
@@ -1827,6 +1886,8 @@ class FnTrans:
             return E("%s %s" % (ext.param, " ".join(paren(e.sub()) for e in es)), ext.ret, ext.mon)
         if kws:
             raise self.err(n, "keyword arguments to a method")
+        if recv.ty == "wstream" and m == "getvalue" and not args:
+            return E(recv.code, "str", recv.mon)
         if recv.ty == NPV:
             if m == "astype" and len(args) == 1 and isinstance(args[0], ast.Constant) and isinstance(args[0].value, str):
                 return E("Np.astype %s %s" % (paren(recv.sub()), str_lit(args[0].value)), NPV, True)
@@ -2158,6 +2219,13 @@ class FnTrans:
     def s_Pass(self, s, depth):
         return []
 
+    def s_Import(self, s, depth):
+        """`import pprint` inside a function: binds a module name (nothing the translation keeps)"""
+        for al in s.names:
+            if al.name not in ("pprint",) or al.asname:
+                raise self.err(s, "import of this module inside a function")
+        return []
+
     def s_Expr(self, s, depth):
         v = s.value
         if isinstance(v, ast.Constant) and isinstance(v.value, str):
@@ -2180,6 +2248,19 @@ class FnTrans:
                     e = self.resolve_next(e, depth, lines)
                 lines.append(self.ind(depth, "let _ ← %s" % e.code if e.mon else "let _ := %s" % e.code))
             return lines
+        if fname == "pprint.pprint" and len(v.args) == 2 and not v.keywords and isinstance(v.args[1], ast.Name) \
+                and self.env.get(v.args[1].id) == "wstream":
+            d = self.rhs(v.args[0], depth, pre)
+            if not (isinstance(d.ty, tuple) and d.ty[0] == "dict" and d.ty[1] == "str"):
+                raise self.err(s, "pprint of a %s" % (d.ty,))
+            ext = Ext("pprint_text", [d.ty], "str", [], "what `pprint.pprint(d, stream)` writes to the stream for this dict "
+                      "(the final newline included)")
+            for x in self.ext_used:
+                if x.param == ext.param:
+                    ext = x
+            self.use_ext(ext)
+            nm = self.ln(v.args[1].id)
+            return pre + [self.ind(depth, "%s := %s ++ %s %s" % (nm, nm, ext.param, paren(d.sub())))]
         if fname == "warnings.warn" and v.args and set(k.arg for k in v.keywords) <= {"stacklevel"}:
             # the warning itself is not kept (a filter that turns it into an exception is outside the translation);
             # its message is evaluated
